@@ -21,7 +21,8 @@
  *   solve <slot> <hexname> <type> <rows> <cols> <F> <variant> -> solve rc=<rc> ci=<found index>
  *   free <slot>                      -> free
  *   import <path> | importf <path>   -> import rc=<rc> errno=<name> cb=<n> cat=<c>, P lines, ENDDUMP
- *   fmt <precision> <double>         -> fmt <hex of "%.*e" text> (libc reference for NumText)
+ *   fmt <precision> <double>         -> fmt <hex of "%.*e" text> <hex of "%a" text> (libc reference for NumText)
+ *   abi                              -> sizes, VNACAL_MAX_PRECISION, default precisions, setter acceptance probes
  *   leak                             -> leak <0|1>     (LSan recoverable check, attributes leaks)
  *   live                             -> live <n>       (allocwrap live block count, -1 without wrap)
  * At the end of the script: DONE (its absence tells the driver that the last case died).
@@ -516,6 +517,19 @@ int main(int argc, char **argv)
 	    printf(" ");
 	    phex(buf);
 	    putchar('\n');
+	} else if (strcmp(op, "abi") == 0) {
+	    vnacal_t *v = vnacal_create(error_fn, NULL);
+	    int probes[] = { -1, 0, 1, 2, 25, 26, 27, 28, 40, 999, 1000, 1001, 2147483647 };
+	    printf("abi int=%zu double=%zu complex=%zu maxp=%d deff=%d defd=%d acceptf",
+		    sizeof(int), sizeof(double), sizeof(double complex), VNACAL_MAX_PRECISION,
+		    v->vc_fprecision, v->vc_dprecision);
+	    for (size_t i = 0; i < sizeof(probes) / sizeof(probes[0]); ++i)
+		printf(" %d:%d", probes[i], vnacal_set_fprecision(v, probes[i]) == 0);
+	    printf(" acceptd");
+	    for (size_t i = 0; i < sizeof(probes) / sizeof(probes[0]); ++i)
+		printf(" %d:%d", probes[i], vnacal_set_dprecision(v, probes[i]) == 0);
+	    putchar('\n');
+	    vnacal_free(v);
 	} else if (strcmp(op, "leak") == 0) {
 #ifdef HAVE_LSAN
 	    printf("leak %d\n", __lsan_do_recoverable_leak_check() ? 1 : 0);
